@@ -1,5 +1,5 @@
 #!/bin/sh
-# usage: gen_cfg.sh name sqlite crash maxfail rmex fresholdhash skiponfail useind runs edits touch [emit]
+# usage: gen_cfg.sh name sqlite crash maxfail rmex fresholdhash skiponfail useind runs edits touch [emit|check] [withabsent] [checkdeplist]
 cat > $1 <<EOT
 SPECIFICATION Spec
 CONSTANTS
@@ -13,6 +13,8 @@ CONSTANTS
   FreshOldHash = $6
   DropMetaOnFail = $7
   UseIndirect = $8
+  WithAbsent = ${13:-FALSE}
+  CheckDepList = ${14:-TRUE}
 EOT
 if [ "${12}" = emit ]; then
 cat >> $1 <<EOT
